@@ -5,6 +5,15 @@ AbstractStreamWriter), aiohttp.MultipartReader / BodyPartReader over a real Stre
 segmentation, BaseRequest.post() on a mocked request.  Oracle: vlib/refmultipart.py (independent RFC 2046 /
 2045 / 7578 / 5987 codec) applied to the recorded wire bytes, plus the plan that was handed to the writer.
 
+Profile rules (deliberate, pinned aiohttp behaviour the oracle accepts; each application is counted):
+  P-ABSPATH   leading "/" and "\\" are stripped from a *filename* (tests/test_multipart_helpers.py::test_attabspath,
+              test_attabspathwin, test_filename_ext_abspath); a filename of separators only therefore reads as empty and
+              post() files it as an ordinary field (web_request.py `if field.filename:`).
+  P-IOFILENAME  FormData gives a file-like value without filename one (guess_filename: object name or field name;
+              tests/test_formdata.py) - file-vs-value expectation of post() is taken from the wire.
+  reference side: R-DEFLATE-RAW, R-QP-LIBERAL, R-QP-KEEP-WS, R-HDR-UTF8 (vlib/refmultipart.py).
+Only the first breach of a read (in reading order) is reported: a framing slip makes everything after it differ.
+
 Strata (one generator each, every case is re-creatable from its case seed):
   rt      MultipartWriter bodies (all encodings, nesting <= 2)  x segmentation x feed mode x API script
   form    FormData bodies read by MultipartReader and by request.post()
@@ -594,7 +603,10 @@ def plan_summary(plan):
 
 def run_rt_case(loop, case_seed, rec, tmpdir, *, variants=3, plan_kw=None, stratum="rt"):
     rng = random.Random(case_seed)
-    plan = G.gen_plan(rng, **(plan_kw or {}))
+    kw = dict(plan_kw or {})
+    if case_seed % 40 == 7:
+        kw["empty_nested"] = True  # trigger sub-stratum: a nested writer without parts (main stratum: >= 1 part)
+    plan = G.gen_plan(rng, **kw)
     witness = {"stratum": stratum, "case_seed": case_seed}
     ctx = f"{stratum}#{case_seed}"
     violations: list = []
